@@ -30,6 +30,7 @@
 #include <tbox/eventx/timer_pool.h>
 
 extern "C" int __lsan_do_recoverable_leak_check() __attribute__((weak));
+extern "C" size_t __sanitizer_get_current_allocated_bytes() __attribute__((weak));
 
 using json = nlohmann::json;
 using tbox::event::Loop;
@@ -37,6 +38,7 @@ using tbox::eventx::TimerPool;
 typedef TimerPool::TimerToken Token;
 
 static uint64_t g_vnow = 0;       // virtual monotonic clock (ms)
+static unsigned long g_leak_checks = 0;
 static bool steady_hook(uint64_t &ms) { ms = g_vnow; return true; }
 static long long tokn(const Token &t) { return (long long)t.id() * 4096 + (long long)t.pos(); }
 typedef std::array<long, 4> Pad;  // makes the callback functor too big for std::function's inline storage: it lives on the heap and
@@ -246,13 +248,19 @@ int main(int argc, char **argv) {
     while (std::getline(in, line)) {
         if (line.empty()) continue;
         json sc = json::parse(line);
+        // LeakSanitizer's check costs ~10 ms: it is asked only when the allocator's byte count differs from the count before the
+        // execution (lazy initialisations make it differ now and then: the verdict is LeakSanitizer's, never the byte count)
+        size_t before = __sanitizer_get_current_allocated_bytes ? __sanitizer_get_current_allocated_bytes() : 0;
         run_one(sc, eng == "alt" ? ((idx % 2) ? "select" : "epoll") : eng);
-        int leak = __lsan_do_recoverable_leak_check ? __lsan_do_recoverable_leak_check() : 0;
+        size_t after = __sanitizer_get_current_allocated_bytes ? __sanitizer_get_current_allocated_bytes() : 1;
+        int leak = (before != after && __lsan_do_recoverable_leak_check) ? __lsan_do_recoverable_leak_check() : 0;
+        if (before != after) ++g_leak_checks;
         vh::T().line(std::string("{\"e\":\"end\",\"leak\":") + (leak ? "true" : "false") + "}");
         vh::T().line("{\"e\":\"Reset\"}");
         vh::T().flush();
         ++idx;
     }
     vh::T().close();
+    fprintf(stderr, "leak checks: %lu of %zu executions\n", g_leak_checks, idx);
     return 0;
 }
